@@ -89,6 +89,9 @@ class BMPWriter:
 
     def write_line(self, y: int, data: bytes) -> None:
         self.fp.seek(self.pos1 - (y + 1) * self.linesize)
+        if self.bits == 24:
+            # BMP stores pixels as blue, green, red
+            data = b"".join(data[i : i + 3][::-1] for i in range(0, len(data), 3))
         self.fp.write(data)
 
 
